@@ -152,6 +152,18 @@ CLAIMED = {
         note="Equivalence with an abstract list over all histories and the amortised reallocation count are runtime/history "
              "properties and are not claimed; the invariant count <= capacity is inductive over these rules (argument).",
         design="§4 C12"),
+    "C20": dict(
+        technique="complete arithmetic audit: every 64-bit add/sub/mul/shl instruction of the library classified by an enumerated no-wrap idiom (IR dominance + path facts), with a taint refinement for decoded lengths; allocation-size provenance",
+        text="Every one of the library's 64-bit add/sub/mul/shl instructions must match one enumerated idiom on every path on "
+             "which it executes (guard call, subtractive guard, post-check/saturation, small constant under a successful "
+             "allocation, counted induction, slot post-increment, window arithmetic, byte assembly, non-size counter, guard "
+             "helper internals); operands carrying a decoded 32/64-bit length may only use the first five. A new unguarded "
+             "n*size, len+hdr or cap+1 anywhere is reported, not only at known sites. Serialized size accumulates only "
+             "through the signalling add; allocator requests are constants, untruncated lengths or guarded products.",
+        note="NOT decided: the correctness of _cbor_safe_to_multiply / _cbor_safe_to_add themselves for all 2^128 operand "
+             "pairs (an arithmetic theorem: SMT or hand proof, a different technique family). LP64 only: the 32-bit "
+             "narrowing that CHECK_LENGTH guards does not exist on the analysed platform.",
+        design="§4 C20"),
     "C13": dict(
         technique="whole-library who-may-call + effect summaries (allocator call graph), block-provenance rule against the extracted constructor table",
         text="Decided as a whole by static who-may-call/effect analysis over all 20 units: external-symbol inventory "
@@ -231,6 +243,7 @@ def main():
 
 
 NOT_APPLICABLE = {}
+
 
 if __name__ == "__main__":
     main()
